@@ -172,6 +172,26 @@ fn render_faults(b: &mut B) {
     b.r("math/rhs-subscript", "{{ 2 * ⟦s⟧[⟦0⟧] }}");
     b.r("math/rhs-array-literal", "{{ 2 * ⟦[1, n]⟧ }}");
     b.r("math/rhs-test-result", "{{ 2 * (⟦n⟧ is ⟦odd⟧) }}");
+    // ---- an error blamed on the RESULT of a slice with omitted parts (the compiler fills them with
+    // constants that have no source position; seeded change C12-6 widened the result's span over
+    // them and every later error on that value had no span to report)
+    for (sname, slice) in [
+        ("from", "⟦s⟧[⟦1⟧:]"),
+        ("to", "⟦s⟧[:⟦2⟧]"),
+        ("from-to", "⟦s⟧[⟦1⟧:⟦2⟧]"),
+        ("array-from", "⟦arr⟧[⟦1⟧:]"),
+        ("all", "⟦arr⟧[:]"),
+        ("optional-from", "⟦s⟧?[⟦1⟧:]"),
+        ("explicit-step", "⟦s⟧[⟦0⟧:⟦2⟧:⟦1⟧]"),
+    ] {
+        b.r(&format!("slice-result/{sname}/times"), &format!("{{{{ {slice} * 2 }}}}"));
+        b.r(&format!("slice-result/{sname}/rhs-minus"), &format!("{{{{ 2 - {slice} }}}}"));
+        b.r(&format!("slice-result/{sname}/negated"), &format!("{{{{ -{slice} }}}}"));
+        b.r(&format!("slice-result/{sname}/rhs-plus"), &format!("{{{{ 1 ⟦+⟧ {slice} }}}}"));
+        b.r(&format!("slice-result/{sname}/filter-type"), &format!("{{{{ {slice} | ⟦abs⟧ }}}}"));
+        b.r(&format!("slice-result/{sname}/for-kv"), &format!("{{% for k, v in {slice} %}}x{{% endfor %}}"));
+        b.r(&format!("slice-result/{sname}/map-spread"), &format!("{{{{ {{...{slice}}} }}}}"));
+    }
     b.r("math/nested-inner", "{{ 1 + 2 * (3 - ⟦s⟧) }}");
     b.r("math/chain-middle", "{{ 1 * ⟦s⟧ * 3 }}");
     // ---- divide by zero: the divisor
